@@ -475,113 +475,172 @@ pub fn socket_request_two_parts(addr: &str, req: &HttpReq, first: usize, timeout
 /// Several requests on ONE connection (HTTP/1.1 keep-alive). `pipelined`: all requests are written
 /// before the first response is read. Bodies use Content-Length or chunked framing alternately.
 /// Returns one response per request (a `failed` response once the connection is gone).
-pub fn socket_session(addr: &str, reqs: &[HttpReq], pipelined: bool, timeout: Duration) -> Vec<HttpResp> {
-    fn encode(req: &HttpReq, chunked: bool, last: bool) -> Vec<u8> {
-        let mut out = Vec::new();
-        out.extend_from_slice(format!("{} {} HTTP/1.1\r\nHost: localhost\r\n", req.method, req.path).as_bytes());
-        if last {
-            out.extend_from_slice(b"Connection: close\r\n");
-        }
-        for (k, v) in &req.headers {
-            out.extend_from_slice(k.as_bytes());
-            out.extend_from_slice(b": ");
-            out.extend_from_slice(v);
-            out.extend_from_slice(b"\r\n");
-        }
-        if req.chunks.is_empty() {
-            if !matches!(req.method.as_str(), "GET" | "HEAD") {
-                out.extend_from_slice(b"Content-Length: 0\r\n");
-            }
-            out.extend_from_slice(b"\r\n");
-        } else if chunked {
-            out.extend_from_slice(b"Transfer-Encoding: chunked\r\n\r\n");
-            for c in req.chunks.iter().filter(|c| !c.is_empty()) {
-                out.extend_from_slice(format!("{:x}\r\n", c.len()).as_bytes());
-                out.extend_from_slice(c);
-                out.extend_from_slice(b"\r\n");
-            }
-            out.extend_from_slice(b"0\r\n\r\n");
-        } else {
-            out.extend_from_slice(format!("Content-Length: {}\r\n\r\n", req.body_len()).as_bytes());
-            for c in &req.chunks {
-                out.extend_from_slice(c);
-            }
-        }
-        out
+fn session_encode(req: &HttpReq, chunked: bool, last: bool) -> Vec<u8> {
+    let mut out = Vec::new();
+    out.extend_from_slice(format!("{} {} HTTP/1.1\r\nHost: localhost\r\n", req.method, req.path).as_bytes());
+    if last {
+        out.extend_from_slice(b"Connection: close\r\n");
     }
-    /// read one response from `s`, using and refilling `buf`
-    fn read_one(s: &mut TcpStream, buf: &mut Vec<u8>, head_only: bool) -> std::io::Result<HttpResp> {
-        let mut tmp = [0u8; 65536];
-        let bad = |m: &str| std::io::Error::new(std::io::ErrorKind::InvalidData, m.to_string());
-        let he = loop {
-            if let Some(p) = find(buf, b"\r\n\r\n") {
-                break p;
+    for (k, v) in &req.headers {
+        out.extend_from_slice(k.as_bytes());
+        out.extend_from_slice(b": ");
+        out.extend_from_slice(v);
+        out.extend_from_slice(b"\r\n");
+    }
+    if req.chunks.is_empty() {
+        if !matches!(req.method.as_str(), "GET" | "HEAD") {
+            out.extend_from_slice(b"Content-Length: 0\r\n");
+        }
+        out.extend_from_slice(b"\r\n");
+    } else if chunked {
+        out.extend_from_slice(b"Transfer-Encoding: chunked\r\n\r\n");
+        for c in req.chunks.iter().filter(|c| !c.is_empty()) {
+            out.extend_from_slice(format!("{:x}\r\n", c.len()).as_bytes());
+            out.extend_from_slice(c);
+            out.extend_from_slice(b"\r\n");
+        }
+        out.extend_from_slice(b"0\r\n\r\n");
+    } else {
+        out.extend_from_slice(format!("Content-Length: {}\r\n\r\n", req.body_len()).as_bytes());
+        for c in &req.chunks {
+            out.extend_from_slice(c);
+        }
+    }
+    out
+}
+/// read one response from `s`, using and refilling `buf`
+fn session_read_one(s: &mut TcpStream, buf: &mut Vec<u8>, head_only: bool) -> std::io::Result<HttpResp> {
+    let mut tmp = [0u8; 65536];
+    let bad = |m: &str| std::io::Error::new(std::io::ErrorKind::InvalidData, m.to_string());
+    let he = loop {
+        if let Some(p) = find(buf, b"\r\n\r\n") {
+            break p;
+        }
+        let n = s.read(&mut tmp)?;
+        if n == 0 {
+            return Err(std::io::Error::new(std::io::ErrorKind::UnexpectedEof, "connection closed before a complete response head"));
+        }
+        buf.extend_from_slice(&tmp[..n]);
+    };
+    let head = std::str::from_utf8(&buf[..he]).map_err(|_| bad("non-utf8 head"))?.to_string();
+    let lower = head.to_ascii_lowercase();
+    let chunked = lower.lines().any(|l| l.starts_with("transfer-encoding:") && l.contains("chunked"));
+    let clen: Option<usize> = lower.lines().find_map(|l| l.strip_prefix("content-length:").and_then(|v| v.trim().parse().ok()));
+    let total = if head_only {
+        he + 4
+    } else if chunked {
+        // find the end of the chunked body
+        loop {
+            let mut pos = he + 4;
+            let mut done = None;
+            loop {
+                let Some(le) = find(&buf[pos..], b"\r\n") else { break };
+                let Ok(szs) = std::str::from_utf8(&buf[pos..pos + le]) else { return Err(bad("bad chunk size")) };
+                let Ok(sz) = usize::from_str_radix(szs.split(';').next().unwrap_or("").trim(), 16) else { return Err(bad("bad chunk size")) };
+                let next = pos + le + 2 + sz + 2;
+                if sz == 0 {
+                    if buf.len() >= pos + le + 2 + 2 {
+                        done = Some(pos + le + 2 + 2);
+                    }
+                    break;
+                }
+                if buf.len() < next {
+                    break;
+                }
+                pos = next;
+            }
+            if let Some(d) = done {
+                break d;
             }
             let n = s.read(&mut tmp)?;
             if n == 0 {
-                return Err(std::io::Error::new(std::io::ErrorKind::UnexpectedEof, "connection closed before a complete response head"));
+                return Err(std::io::Error::new(std::io::ErrorKind::UnexpectedEof, "connection closed inside a chunked body"));
             }
             buf.extend_from_slice(&tmp[..n]);
-        };
-        let head = std::str::from_utf8(&buf[..he]).map_err(|_| bad("non-utf8 head"))?.to_string();
-        let lower = head.to_ascii_lowercase();
-        let chunked = lower.lines().any(|l| l.starts_with("transfer-encoding:") && l.contains("chunked"));
-        let clen: Option<usize> = lower.lines().find_map(|l| l.strip_prefix("content-length:").and_then(|v| v.trim().parse().ok()));
-        let total = if head_only {
-            he + 4
-        } else if chunked {
-            // find the end of the chunked body
-            loop {
-                let mut pos = he + 4;
-                let mut done = None;
-                loop {
-                    let Some(le) = find(&buf[pos..], b"\r\n") else { break };
-                    let Ok(szs) = std::str::from_utf8(&buf[pos..pos + le]) else { return Err(bad("bad chunk size")) };
-                    let Ok(sz) = usize::from_str_radix(szs.split(';').next().unwrap_or("").trim(), 16) else { return Err(bad("bad chunk size")) };
-                    let next = pos + le + 2 + sz + 2;
-                    if sz == 0 {
-                        if buf.len() >= pos + le + 2 + 2 {
-                            done = Some(pos + le + 2 + 2);
-                        }
-                        break;
-                    }
-                    if buf.len() < next {
-                        break;
-                    }
-                    pos = next;
-                }
-                if let Some(d) = done {
-                    break d;
-                }
-                let n = s.read(&mut tmp)?;
-                if n == 0 {
-                    return Err(std::io::Error::new(std::io::ErrorKind::UnexpectedEof, "connection closed inside a chunked body"));
-                }
-                buf.extend_from_slice(&tmp[..n]);
+        }
+    } else if let Some(n) = clen {
+        while buf.len() < he + 4 + n {
+            let k = s.read(&mut tmp)?;
+            if k == 0 {
+                return Err(std::io::Error::new(std::io::ErrorKind::UnexpectedEof, "connection closed inside a body"));
             }
-        } else if let Some(n) = clen {
-            while buf.len() < he + 4 + n {
-                let k = s.read(&mut tmp)?;
-                if k == 0 {
-                    return Err(std::io::Error::new(std::io::ErrorKind::UnexpectedEof, "connection closed inside a body"));
-                }
-                buf.extend_from_slice(&tmp[..k]);
+            buf.extend_from_slice(&tmp[..k]);
+        }
+        he + 4 + n
+    } else {
+        // delimited by close
+        loop {
+            let k = s.read(&mut tmp)?;
+            if k == 0 {
+                break;
             }
-            he + 4 + n
-        } else {
-            // delimited by close
-            loop {
-                let k = s.read(&mut tmp)?;
-                if k == 0 {
-                    break;
-                }
-                buf.extend_from_slice(&tmp[..k]);
-            }
-            buf.len()
-        };
-        let one: Vec<u8> = buf.drain(..total).collect();
-        parse_response(&one, head_only).ok_or_else(|| bad("unparsable response"))
+            buf.extend_from_slice(&tmp[..k]);
+        }
+        buf.len()
+    };
+    let one: Vec<u8> = buf.drain(..total).collect();
+    parse_response(&one, head_only).ok_or_else(|| bad("unparsable response"))
+}
+
+/// One persistent HTTP/1.1 connection (keep-alive) that is re-opened when the server closes it.
+pub struct KeepAlive {
+    addr: String,
+    stream: Option<TcpStream>,
+    buf: Vec<u8>,
+    pub requests_on_current_connection: u64,
+    pub reconnects: u64,
+    n: u64,
+}
+
+impl KeepAlive {
+    pub fn new(addr: &str) -> Self {
+        KeepAlive { addr: addr.to_string(), stream: None, buf: vec![], requests_on_current_connection: 0, reconnects: 0, n: 0 }
     }
+    pub fn request(&mut self, req: &HttpReq, timeout: Duration) -> HttpResp {
+        self.n += 1;
+        let bytes = session_encode(req, self.n % 2 == 1 && !req.chunks.is_empty(), false);
+        for attempt in 0..2 {
+            if self.stream.is_none() {
+                match TcpStream::connect(&self.addr) {
+                    Ok(s) => {
+                        let _ = s.set_read_timeout(Some(timeout));
+                        let _ = s.set_write_timeout(Some(timeout));
+                        let _ = s.set_nodelay(true);
+                        self.stream = Some(s);
+                        self.buf.clear();
+                        self.requests_on_current_connection = 0;
+                        self.reconnects += 1;
+                    }
+                    Err(e) => return HttpResp::failed(format!("socket: {e}")),
+                }
+            }
+            let fresh = self.requests_on_current_connection == 0;
+            let s = self.stream.as_mut().unwrap();
+            let res = s.write_all(&bytes).and_then(|_| s.flush()).and_then(|_| session_read_one(s, &mut self.buf, req.method == "HEAD"));
+            match res {
+                Ok(r) => {
+                    self.requests_on_current_connection += 1;
+                    let close = r.header("connection").map(|v| v.eq_ignore_ascii_case("close")).unwrap_or(false);
+                    if close {
+                        self.stream = None;
+                    }
+                    return r;
+                }
+                Err(e) => {
+                    // an idle connection may have been closed by the server between two requests: the
+                    // request is sent again once, on a new connection (nothing of it was answered)
+                    self.stream = None;
+                    if fresh || attempt == 1 {
+                        return HttpResp::failed(format!("socket: {e}"));
+                    }
+                }
+            }
+        }
+        HttpResp::failed("socket: unreachable".into())
+    }
+}
+
+pub fn socket_session(addr: &str, reqs: &[HttpReq], pipelined: bool, timeout: Duration) -> Vec<HttpResp> {
     let mut out: Vec<HttpResp> = vec![];
     let mut s = match TcpStream::connect(addr) {
         Ok(s) => s,
@@ -595,7 +654,7 @@ pub fn socket_session(addr: &str, reqs: &[HttpReq], pipelined: bool, timeout: Du
     if pipelined {
         let mut all = vec![];
         for (i, r) in reqs.iter().enumerate() {
-            all.extend_from_slice(&encode(r, i % 2 == 1, i + 1 == reqs.len()));
+            all.extend_from_slice(&session_encode(r, i % 2 == 1, i + 1 == reqs.len()));
         }
         // write from another thread so that large pipelines cannot dead-lock on full socket buffers
         let mut w = match s.try_clone() {
@@ -608,7 +667,7 @@ pub fn socket_session(addr: &str, reqs: &[HttpReq], pipelined: bool, timeout: Du
         for r in reqs {
             match &dead {
                 Some(d) => out.push(HttpResp::failed(d.clone())),
-                None => match read_one(&mut s, &mut buf, r.method == "HEAD") {
+                None => match session_read_one(&mut s, &mut buf, r.method == "HEAD") {
                     Ok(x) => out.push(x),
                     Err(e) => {
                         dead = Some(format!("socket: {e}"));
@@ -625,8 +684,8 @@ pub fn socket_session(addr: &str, reqs: &[HttpReq], pipelined: bool, timeout: Du
                 out.push(HttpResp::failed(d.clone()));
                 continue;
             }
-            let bytes = encode(r, i % 2 == 1, i + 1 == reqs.len());
-            let res = s.write_all(&bytes).and_then(|_| s.flush()).and_then(|_| read_one(&mut s, &mut buf, r.method == "HEAD"));
+            let bytes = session_encode(r, i % 2 == 1, i + 1 == reqs.len());
+            let res = s.write_all(&bytes).and_then(|_| s.flush()).and_then(|_| session_read_one(&mut s, &mut buf, r.method == "HEAD"));
             match res {
                 Ok(x) => out.push(x),
                 Err(e) => {
